@@ -114,6 +114,8 @@ func cmdVC(args []string) int {
 	return 0
 }
 
+var hintSecs = map[string]float64{}
+
 // ---------- known findings ----------
 
 type KnownFinding struct {
@@ -228,8 +230,17 @@ func cmdCheck(args []string) int {
 	hintsPath := filepath.Join(verifDir, "specs", "hints.txt")
 	if data, err := os.ReadFile(hintsPath); err == nil {
 		for _, ln := range strings.Split(string(data), "\n") {
-			if i := strings.LastIndex(ln, "\t"); i > 0 && !strings.HasPrefix(ln, "#") {
-				solverHints[ln[:i]] = strings.TrimSpace(ln[i+1:])
+			if strings.HasPrefix(ln, "#") {
+				continue
+			}
+			f := strings.Split(ln, "\t")
+			if len(f) >= 2 {
+				solverHints[f[0]] = strings.TrimSpace(f[1])
+				if len(f) >= 3 {
+					if sec, err := strconv.ParseFloat(strings.TrimSpace(f[2]), 64); err == nil {
+						hintSecs[f[0]] = sec
+					}
+				}
 			}
 		}
 	}
@@ -288,6 +299,9 @@ func cmdCheck(args []string) int {
 		c := v.newFnCtx(f, *prop)
 		vc, err := c.generate()
 		jobs = append(jobs, &fnJob{f: f, vc: vc, err: err})
+	}
+	if *verbose {
+		fmt.Fprintf(os.Stderr, "  [%.1fs] loaded and generated VCs for %d functions\n", time.Since(t0).Seconds(), len(jobs))
 	}
 	engineErr := false
 	for _, j := range jobs {
@@ -356,11 +370,15 @@ func cmdCheck(args []string) int {
 		}
 		todo = keep
 	}
+	// longest expected first (from the hints), so that the slow obligations do not start last
+	sort.SliceStable(todo, func(a, b int) bool {
+		return hintSecs[todo[a].j.vc.Obs[todo[a].k].Name] > hintSecs[todo[b].j.vc.Obs[todo[b].k].Name]
+	})
 	var mu sync.Mutex
 	perBackend := map[string]map[string]int{}
 	solverSecs := map[string]float64{}
 	var wg sync.WaitGroup
-	sem := make(chan struct{}, 16)
+	sem := make(chan struct{}, 40)
 	// grouped obligations: one query for the whole group first; its `unsat` discharges every member,
 	// anything else sends the members to the individual queries below
 	{
@@ -453,6 +471,9 @@ func cmdCheck(args []string) int {
 		}(r)
 	}
 	wg.Wait()
+	if *verbose {
+		fmt.Fprintf(os.Stderr, "  [%.1fs] first pass done\n", time.Since(t0).Seconds())
+	}
 	// second chance on a quiet machine: an obligation that ran out of time while all cores were busy
 	// is tried again, four at a time, before it is reported (a `sat` answer is never retried)
 	{
@@ -503,8 +524,10 @@ func cmdCheck(args []string) int {
 			}
 			if ob.Result == "unsat" && (ob.Secs > 1.0 || (sv != "z3-5.1.0" && sv != ematchSolver.Name)) {
 				solverHints[ob.Name] = sv
+				hintSecs[ob.Name] = ob.Secs
 			} else {
 				delete(solverHints, ob.Name)
+				delete(hintSecs, ob.Name)
 			}
 		}
 		var names []string
@@ -515,7 +538,7 @@ func cmdCheck(args []string) int {
 		var sb strings.Builder
 		sb.WriteString("# obligation name <TAB> back end that discharged it (performance hints only; written by `govc check -write-hints`)\n")
 		for _, n := range names {
-			sb.WriteString(n + "\t" + solverHints[n] + "\n")
+			sb.WriteString(fmt.Sprintf("%s\t%s\t%.1f\n", n, solverHints[n], hintSecs[n]))
 		}
 		os.WriteFile(hintsPath, []byte(sb.String()), 0644)
 	}
